@@ -178,13 +178,13 @@ fn grids(rows: usize, cols: usize, maxn: usize) -> Vec<G> {
 
 pub fn check(rep: &Report) {
     let t = crate::thorough(&rep.tier);
-    rep.rule("logical grid = every rows x cols grid (quick: up to 4x3 and 3x4, thorough: up to 5x4) over {empty, A, B} with 1..=3 (thorough 4) non-empty cells, so every first used row/column and every interior/leading/trailing empty run occurs; A/B range over 9 value kinds; encoding = every composition of every maximal run of equal cells and equal rows, covered cells for empties, trailing empties {absent, x1/exact, +1020, to column 16384}, trailing rows {absent, exact, +1000, to row 1048576}, stored/deflated; full product when a grid's choice product is <= limit, else all vectors with <= 2 (thorough 3) deviations; non-trivial = non-default encoding; distinct by file bytes");
+    rep.rule("logical grid = every rows x cols grid (quick: up to 4x3 and 3x4, thorough: up to 5x4) over {empty, A, B} with 1..=3 (thorough 4; quick 2 on the 3x4 grids) non-empty cells, so every first used row/column and every interior/leading/trailing empty run occurs; A/B range over 9 value kinds; encoding = every composition of every maximal run of equal cells and equal rows, covered cells for empties, trailing empties {absent, x1/exact, +1020, to column 16384}, trailing rows {absent, exact, +1000, to row 1048576}, stored/deflated; all vectors with <= 2 (thorough 3; on grids above 9 cells the third deviation only among the run-length / covering / trailing choices) deviations, plus the full product of the run-length / covering / trailing choices when it is <= limit; non-trivial = non-default encoding; distinct by file bytes");
     rep.assume("empty-string cells and whitespace between elements (pretty-printed content.xml) are not generated");
     let dims: Vec<(usize, usize)> = if t { vec![(1, 1), (2, 2), (3, 3), (4, 3), (3, 4), (5, 4), (2, 5)] } else { vec![(1, 1), (2, 2), (3, 3), (4, 3), (3, 4)] };
     let maxn = if t { 4 } else { 3 };
     let mut jobs: Vec<(G, usize, usize)> = vec![];
     for (r, c) in dims {
-        for (i, g) in grids(r, c, if r * c > 12 { 3 } else { maxn }).into_iter().enumerate() {
+        for (i, g) in grids(r, c, if r * c > 12 { 3 } else if (r, c) == (3, 4) && !t { 2 } else { maxn }).into_iter().enumerate() {
             // value kinds rotate deterministically with the grid index so every kind pair occurs
             let ka = i % 9;
             let kb = (i / 9 + ka + 1 + (i % 7)) % 9;
@@ -201,8 +201,11 @@ pub fn check(rep: &Report) {
         let mut st = Stats::default();
         let mut local = vec![];
         // (1) all choices, bounded deviations; (2) the full product of the run-length / covering / trailing choices where small
-        explore_deviations(|ch| run_case(rep, ch, g, *ka, *kb, &mut local, false), dev, &mut st);
+        let cells = g.len() * g[0].len();
+        let dev_all = if t && cells > 9 { 2 } else { dev };
+        explore_deviations(|ch| run_case(rep, ch, g, *ka, *kb, &mut local, false), dev_all, &mut st);
         CORE_ONLY.with(|c| c.set(true));
+        if dev_all < dev { explore_deviations(|ch| run_case(rep, ch, g, *ka, *kb, &mut local, false), dev, &mut st); }
         let est = estimate_product(|ch| run_case(rep, ch, g, *ka, *kb, &mut vec![], true));
         if est * 2.0 <= limit {
             explore_full(|ch| run_case(rep, ch, g, *ka, *kb, &mut local, false), &mut st, u64::MAX);
